@@ -46,6 +46,17 @@ def r1_map_access_total(ctx, rep, R='C20.R1'):
                               alias_dotted(fi.node, e.comparators[0]) == 'self._neighbors' and
                               norm(e.left) == norm(n.slice)
                               for e, pos in guard_literals(ctx, fi, n))
+                # ... or the read is the membership test itself: try: d[k] / except KeyError
+                node_, par = n, getattr(n, '_parent', None)
+                while par is not None and par is not fi.node and not guarded:
+                    if isinstance(par, ast.Try) and any(node_ is b or any(node_ is x for x in ast.walk(b))
+                                                        for b in par.body):
+                        guarded = any(h.type is None or (dotted(h.type) or '') in
+                                      ('KeyError', 'LookupError', 'Exception') or
+                                      (isinstance(h.type, ast.Tuple) and any(
+                                          (dotted(t_) or '') in ('KeyError', 'LookupError')
+                                          for t_ in h.type.elts)) for h in par.handlers)
+                    node_, par = par, getattr(par, '_parent', None)
                 (total if guarded else partial).append((fi, n))
     rep.floor(R, len(total) + len(partial), 3, 'reads of the neighbour map')
     if len(total) >= 1:
@@ -99,13 +110,56 @@ def r2_stated_invariants(ctx, rep, R='C20.R2'):
         if n.kind == 'stmt' and isinstance(n.ast, ast.Assign) and isinstance(n.ast.value, ast.Constant) \
                 and any(isinstance(t, ast.Attribute) and t.attr == 'stacked' for t in n.ast.targets):
             sets[bool(n.ast.value.value)].append(n.id)
-    okp = bool(pushes) and bool(pops)
-    for group, val in ((pushes, True), (pops, False)):
-        for p in group:
-            # the next statements (no branching away) reach the flag store before leaving the block
-            okp = okp and any(s in g.reach([p], avoid=set(pushes + pops) - {p}) for s in sets[val])
-            r = g.reach([p], avoid=set(sets[val]), edge_ok=lambda s, d, k: k != 'exc')
-            okp = okp and g.exit not in r and not any(x in r for x in (pushes + pops) if x != p)
+    # the flag is only ever OBSERVED in tests ``<state>.stacked``: at those points it must mirror
+    # stack membership.  So: after a push the flag is set before the next observation / push / pop;
+    # after a pop the popped element's flag is cleared before the next observation -- directly, or
+    # (collected in a list) by a loop over that list that clears every element.
+    reads = [n.id for n in g.nodes if n.ast is not None and n.kind in ('test', 'stmt') and any(
+        isinstance(x, ast.Attribute) and x.attr == 'stacked' and isinstance(x.ctx, ast.Load)
+        for x in ast.walk(n.ast))]
+    okp = bool(pushes) and bool(pops) and bool(reads)
+    for p in pushes:
+        r = g.reach([p], avoid=set(sets[True]), edge_ok=lambda s, d, k: k != 'exc')
+        okp = okp and not any(x in r for x in reads + pushes + pops if x != p) and g.exit not in r
+    for p in pops:
+        st = g.node(p).ast
+        v = st.targets[0].id if isinstance(st, ast.Assign) and isinstance(st.targets[0], ast.Name) else None
+        direct = [c for c in sets[False] if v is not None and any(
+            isinstance(t, ast.Attribute) and isinstance(t.value, ast.Subscript) and
+            is_name(t.value.slice, v) for t in g.node(c).ast.targets)]
+        bulk = []
+        if v is not None:
+            # lists the popped element is appended to, and loops over (aliases of) them that clear
+            colls = {c.func.value.id for n in g.nodes if n.kind == 'stmt' for c in calls_in(n.ast)
+                     if isinstance(c.func, ast.Attribute) and c.func.attr == 'append' and
+                     isinstance(c.func.value, ast.Name) and c.args and is_name(c.args[0], v)}
+            from .common import local_assignments
+            la = local_assignments(fi.node)
+            alias = set(colls)
+            for nm, vals in la.items():
+                if any(isinstance(x, ast.Name) and x.id in colls for x in vals if isinstance(x, ast.AST)):
+                    alias.add(nm)
+            for n in g.nodes:
+                if n.kind == 'for' and isinstance(n.ast, ast.Name) and n.ast.id in alias and \
+                        isinstance(n.stmt.target, ast.Name) and \
+                        not any(isinstance(x, (ast.Break, ast.Continue, ast.If)) for x in ast.walk(n.stmt)):
+                    lv = n.stmt.target.id
+                    if any(isinstance(x, ast.Assign) and isinstance(x.value, ast.Constant) and
+                           x.value.value is False and any(
+                               isinstance(t, ast.Attribute) and t.attr == 'stacked' and
+                               isinstance(t.value, ast.Subscript) and is_name(t.value.slice, lv)
+                               for t in x.targets) for x in n.stmt.body):
+                        bulk.append(n.id)
+            if bulk and not direct:
+                apps = nodes_calling(g, lambda c: isinstance(c.func, ast.Attribute) and
+                                     c.func.attr == 'append' and isinstance(c.func.value, ast.Name) and
+                                     c.func.value.id in colls and c.args and is_name(c.args[0], v))
+                okc, _w = g.every_path_passes([p], [x for x in pops if x != p] + bulk + [g.exit] + [p],
+                                              set(apps), edge_ok=lambda s, d, k: k != 'exc')
+                okp = okp and okc
+        r = g.reach([p], avoid=set(direct) | set(bulk), edge_ok=lambda s, d, k: k != 'exc')
+        okp = okp and bool(direct or bulk) and not any(x in r for x in reads) and \
+            not any(x in r for x in pushes)
     rep.check(okp, R, 'stacked is set after every stack push and cleared after every stack pop',
               'the "stacked" flag can get out of step with the stack', key='stacked-flag',
               func=fi.qualname, where=ctx.where(fi, fi.node))
@@ -785,7 +839,8 @@ def r5_owns_representation(ctx, rep, R='C20.R5'):
             if isinstance(st, ast.Assign) and any(
                     isinstance(t, ast.Subscript) and
                     (alias_dotted_(fi.node, t.value) == 'self._neighbors') for t in st.targets):
-                g = g or ctx.cfg(fi)
+                from sa.cfg import Lookups
+                g = g or ctx.cfg(fi, oracle=Lookups())
                 nid = [x.id for x in g.nodes if x.kind == 'stmt' and x.ast is st]
                 if not nid:
                     continue
